@@ -151,7 +151,7 @@ pub(crate) mod kani_verif {
         kani::cover!(len >= 4 && total > len, "corrupted level word reachable");
         kani::cover!(len >= 4 && total <= len && len - total < N && copy[0] != 0, "layout fits but the MAC is cut short: reachable");
     }
-    // @h name=c10_expand_untrusted_24 props=C10,C11 tier=thorough kind=proved cfg=w8 timeout=2400 funcs=hss_expand_aux_data contract="same contract for every buffer of length 0..24 and every content (layouts without a cached level: header + MAC; truncated, padded and corrupted level words)"
+    // @h name=c10_expand_untrusted_24 props=C10,C11 tier=extended kind=proved cfg=w8 timeout=2400 funcs=hss_expand_aux_data contract="same contract for every buffer of length 0..24 and every content (layouts without a cached level: header + MAC; truncated, padded and corrupted level words)"
     #[kani::proof]
     #[kani::stub(zeroize::optimization_barrier, no_barrier)]
     #[kani::stub(<[u8; 32] as tinyvec::Array>::default, fast_default)]
@@ -161,7 +161,7 @@ pub(crate) mod kani_verif {
     fn c10_expand_untrusted_24() {
         check_expand_untrusted::<24>();
     }
-    // @h props=C10,C11 tier=thorough kind=proved cfg=w8 timeout=2400 funcs=hss_expand_aux_data contract="for every buffer of length 0..120 and every content: no panic; Some only if first byte != 0, len >= 4, the layout named by the level word fits and the MAC field equals compute_hmac(seed-derived key, header||levels); slices at the hash-sigs offsets (MAC computation by contract)"
+    // @h props=C10,C11 tier=extended kind=proved cfg=w8 timeout=2400 funcs=hss_expand_aux_data contract="for every buffer of length 0..120 and every content: no panic; Some only if first byte != 0, len >= 4, the layout named by the level word fits and the MAC field equals compute_hmac(seed-derived key, header||levels); slices at the hash-sigs offsets (MAC computation by contract)"
     #[kani::proof]
     #[kani::stub(zeroize::optimization_barrier, no_barrier)]
     #[kani::stub(<[u8; 32] as tinyvec::Array>::default, fast_default)]
@@ -211,7 +211,7 @@ pub(crate) mod kani_verif {
     fn c10_mac_n16() {
         check_mac::<16, 20>();
     }
-    // @h props=C10 tier=thorough kind=proved cfg=w8 timeout=1800 funcs=compute_seed_derive;compute_hmac contract="same, n=32"
+    // @h props=C10 tier=extended kind=proved cfg=w8 timeout=1800 funcs=compute_seed_derive;compute_hmac contract="same, n=32"
     #[kani::proof]
     #[kani::stub(<[u8; 32] as tinyvec::Array>::default, fast_default)]
     #[kani::unwind(70)]
@@ -221,7 +221,7 @@ pub(crate) mod kani_verif {
 
     /// finalize writes HMAC(key(seed), level word || cached levels) into the MAC slice; save/extract address node r of level
     /// floor(log2 r) at offset (r - 2^level) * n
-    // @h props=C10 tier=thorough kind=bounded cfg=w8 timeout=2400 funcs=hss_finalize_aux_data;hss_save_aux_data;hss_extract_aux_data note="levels 1 and 2 of a buffer laid out by hss_expand_aux_data (level word 0x80000006); node indices 1..7; larger levels use the same index arithmetic" contract="save(r, v) then extract(r) == v for non-zero v, other nodes untouched, uncached levels ignored; finalize MAC pre-image == (key xor ipad block) || level word || level 1 || level 2"
+    // @h props=C10 tier=extended kind=bounded cfg=w8 timeout=2400 funcs=hss_finalize_aux_data;hss_save_aux_data;hss_extract_aux_data note="levels 1 and 2 of a buffer laid out by hss_expand_aux_data (level word 0x80000006); node indices 1..7; larger levels use the same index arithmetic" contract="save(r, v) then extract(r) == v for non-zero v, other nodes untouched, uncached levels ignored; finalize MAC pre-image == (key xor ipad block) || level word || level 1 || level 2"
     #[kani::proof]
     #[kani::stub(zeroize::optimization_barrier, no_barrier)]
     #[kani::stub(<[u8; 32] as tinyvec::Array>::default, fast_default)]
